@@ -1,6 +1,7 @@
 (* C15 -- Transfer copies everything or reports failure, and never touches
    the source.  Property theorems only; proofs in TransferProofs.v. *)
 From Stackage Require Import Base Generated StackImpl StackSpec StackRefine TransferImpl TransferSpec TransferProofs.
+From Stackage Require Import Guard GeneratedIR GuardProps.
 Open Scope Z_scope.
 
 (* For all source contents (any length, nil elements, LIFO or FIFO source),
@@ -60,6 +61,19 @@ Theorem c15_succeeds_when_room :
     exists d', stransfer V nilv isnil isstack pol es d = (d', true) /\ s_elems d' = s_elems d ++ es.
 Proof. intros V nilv isnil isstack pol es d H. exact (stransfer_succeeds V nilv isnil isstack pol H es d). Qed.
 Print Assumptions c15_succeeds_when_room.
+
+(* "never touches the source", on the code as it is now: over the statement
+   IR regenerated from /repo, no execution of Stack.Transfer - for any
+   destination value, any path through the conversion, the capacity pre-check,
+   the copy loop and the success test - contains a store into the source (its
+   slice header, slots, configuration, error field, lock bookkeeping) or a
+   lock operation on it; everything done to the destination happens in calls
+   on the other object. *)
+Theorem c15_source_untouched_static :
+  (exists e, In e ir_entries /\ is_transfer e = true) /\
+  forall e, In e ir_entries -> is_transfer e = true -> entry_ok ir_table bad_src env_init e.
+Proof. apply transfer_source_static. vm_compute. reflexivity. Qed.
+Print Assumptions c15_source_untouched_static.
 
 Example c15_nonvacuous :
   let c := {| k_typ := 1; k_cap := 4; k_opt := 0; k_ord := false; k_err := None; k_ppf := None |} in
